@@ -495,6 +495,7 @@ class Evaluator:
         return Opq('?', ast.unparse(e))
 
     def negate(s, v):
+        if isinstance(v, Poly): v = s.truth(v)
         if isinstance(v, bool): return not v
         if isinstance(v, Cond): return Cond(v.g, s.negate(v.a), s.negate(v.b))
         if isinstance(v, Opq) and v.k and v.k[0] == 'not': return v.k[1]
@@ -674,6 +675,7 @@ class Evaluator:
 
     def mkcond(s, g, a, b):
         """canonical polarity: strip 'not', order Eq before NotEq, GtE before a negated Gt"""
+        if isinstance(g, Poly): g = s.truth(g)
         if isinstance(g, Cond):
             return Cond(g.g, s.mkcond(g.a, a, b), s.mkcond(g.b, a, b))
         if g is True: return a
@@ -1489,22 +1491,49 @@ def term_equal(a, b) -> bool:
     return same(a, b)
 
 
+def _exclusive(d):
+    """two equality guards taken True whose polynomials differ by a non-zero constant cannot hold together"""
+    eqs = [g for g, v in d.items() if v is True and isinstance(g, tuple) and len(g) >= 4 and g[:3] == ('opq', 'cmp', 'Eq') and isinstance(g[3], tuple) and g[3] and g[3][0] == 'poly']
+    for i in range(len(eqs)):
+        for j in range(i + 1, len(eqs)):
+            p, q = Poly(dict(eqs[i][3][1:])), Poly(dict(eqs[j][3][1:]))
+            for dd in (p - q, p + q):
+                c = dd.real_const()
+                if c is not None and c != 0: return True
+    return False
+
+
+def paths_keyed(v, pc=()):
+    if isinstance(v, Cond):
+        gk = tkey(v.g)
+        return paths_keyed(v.a, pc + ((gk, True),)) + paths_keyed(v.b, pc + ((gk, False),))
+    return [(dict(pc), v)]
+
+
 def compare_terms(code, spec, total=False):
     """three-valued comparison of two (Cond-tree) terms.
-    total=True: the specification is unconditional, so a fully interpreted code leaf that differs on ANY path refutes.
-    True   every pair of consistent paths has equal leaves
-    False  some pair of paths over the SAME guard atoms with the same polarities has different, fully interpreted leaves
-    None   otherwise (opaque parts, or only guard-structure differences)"""
-    pc, ps = paths_of(code), paths_of(spec)
+    True   every pair of jointly satisfiable paths has equal leaves
+    False  some jointly satisfiable pair of paths (no guard with opposite polarity, no two exclusive equalities) has different, fully
+           interpreted leaves -- guards that are distinct atoms are taken to be independent
+    None   otherwise (opaque parts)"""
+    pc, ps = paths_keyed(code), paths_keyed(spec)
     verdict = True
-    for g1, l1 in pc:
-        for g2, l2 in ps:
-            d1, d2 = dict(g1), dict(g2)
+    for d1, l1 in pc:
+        for d2, l2 in ps:
             if any(d1[k] != d2[k] for k in d1 if k in d2): continue        # inconsistent
+            both = dict(d1); both.update(d2)
+            if _exclusive(both): continue
             if term_equal(l1, l2): continue
-            if has_opaque(l1) or has_opaque(l2) or any(any(f"'opq', '{t}'" in k or f"('{t}'," in k for t in OPAQUE_TAGS) for k in list(d1) + list(d2)):
+            if has_opaque(l1) or has_opaque(l2) or any(has_opaque_key(k) for k in both):
                 verdict = None if verdict is not False else False
                 continue
-            if set(d1) == set(d2) or (total and not d2): return False
-            verdict = None if verdict is not False else False
+            return False
     return verdict
+
+
+def has_opaque_key(k):
+    if isinstance(k, tuple):
+        if k and k[0] == '?': return True
+        if len(k) > 1 and k[0] == 'opq' and k[1] in OPAQUE_TAGS: return True
+        return any(has_opaque_key(x) for x in k)
+    return False
